@@ -78,3 +78,25 @@ Section Erase.
       /\ cr_final (net_observe (rejected_ret c) (cleared s)) = cr_final (net_observe false s).
   Proof. intros s c. destruct s; repeat split. Qed.
 End Erase.
+
+(* ---- the premises are met by a non-trivial reachable state ------------------------------
+   the example of Examples.v after start(): the order runs, a completion is awaited; junk, a
+   completion nobody awaits, a second start and more junk are all rejected there, while the
+   awaited completion is not *)
+From PFDL Require Import Examples.
+
+Definition ex_after_start : res NS :=
+  rbind (net_init (p_tasks (rc_prog ex_case)) true) (fun s =>
+  match net_api_call (p_tasks (rc_prog ex_case)) (env_of ex_case) net_fuel s AStart with
+  | Ok (_, s') => Ok s' | Fuel => Fuel | Exn k => Exn k | Unsupported => Unsupported end).
+
+Example erase_premise_inhabited :
+  exists s, ex_after_start = Ok s
+            /\ ns_running s = true
+            /\ ns_awaited s <> []
+            /\ forallb (net_rejected s) [AJunk; AFinish 77; AStart; AJunk; AFinish 78] = true
+            /\ existsb (fun id => negb (net_rejected s (AFinish id))) (seq 0 4) = true.
+Proof.
+  eexists. split; [vm_compute; reflexivity|].
+  split; [reflexivity|]. split; [discriminate|]. split; vm_compute; reflexivity.
+Qed.
